@@ -83,6 +83,8 @@ def run_all(ctx, props, faults=1):
             ("A", "limits", 1, {}), ("G", "limits", 1, {}), ("C", "limits", 1, {}),
             # every single store call failing in turn (nothing stored / stored then failed / failing at finalize)
             ("A", "sweep", 1, {"nputs": 8}), ("G", "sweep", 1, {"nputs": 10}),
+            # ... and with tiny shards: a session has several shards, the first shard upload is the one that fails
+            ("S", "sweep", 1, {"nputs": 3}),
             # all upload permits taken by slow uploads, one of which fails while the next registration waits
             ("P", "saturate", 1, {}),
             # rejected dedup hits whose tail is then found in the file's own pending data
